@@ -76,6 +76,10 @@ namespace
             ops = { op_single(), op_mst(rnd_bm(rng), fs::mst_route_method::carve), op_multi(1.0) };
             multi = true;
         }
+        // sometimes a graph snapshot of the final state (a read-only flow graph an eroder may be built on)
+        const bool with_snapshot = rng.chance(0.25);
+        if (with_snapshot)
+            ops.push_back(op_snap("final", true, false));
         GraphBundle gb = build_graph(*env.grid, ops);
         graph_t& graph = *gb.graph;
         R.count(std::string("spl.graph.") + (multi ? "multi" : "single"));
@@ -152,6 +156,29 @@ namespace
                 }
                 R.count("c12.repeated_rejections_checked");
             }
+        }
+
+        // the same rejection on a graph snapshot holding a multiple-direction state
+        if (R.want("C12") && with_snapshot && multi)
+        {
+            graph_t& sg = graph.graph_snapshot("final");
+            for (double nn : { 1.5, 0.6 })
+            {
+                bool threw = false;
+                try
+                {
+                    spl_t probe(sg, 1e-3, 0.5, nn, 1e-3);
+                    (void) probe;
+                }
+                catch (const std::exception&)
+                {
+                    threw = true;
+                }
+                if (!threw)
+                    R.violation("C12", "nonlinear_exponent_accepted_on_multi_flow_graph/snapshot",
+                                JObj().raw("operators", ops_json(ops)).d("slope_exp", nn).s("detail", "spl_eroder on a graph snapshot of a multiple-direction state accepted n != 1").str());
+            }
+            R.count("c12.snapshot_rejection_checks");
         }
 
         // eroder parameters
@@ -689,8 +716,27 @@ namespace
                 a.flat(i) = v[i];
             return a;
         };
+        // a spatially variable K may be given in single precision (any xtensor expression is accepted): the values
+        // are then exactly representable floats and the scheme must be that of the same values in double
+        auto karr_f = [&](std::vector<double>& v)
+        {
+            xt::xtensor<float, 2> a = xt::xtensor<float, 2>::from_shape({ g.rows, g.cols });
+            for (std::size_t i = 0; i < n; ++i)
+            {
+                a.flat(i) = static_cast<float>(v[i]);
+                v[i] = static_cast<double>(a.flat(i));
+            }
+            return a;
+        };
+        bool k_float = !kscalar && rng.chance(0.25);
         if (kscalar)
             er = std::make_unique<adi_t>(*grid, ks);
+        else if (k_float)
+        {
+            er = std::make_unique<adi_t>(*grid, karr_f(kv));
+            ks = kv[0];  // (uniform array: the scalar to compare with is the rounded value)
+            R.count("c14.k_given_as_float_array");
+        }
         else
             er = std::make_unique<adi_t>(*grid, karr(kv));
 
@@ -703,8 +749,15 @@ namespace
                 if (rng.chance(0.6))
                 {
                     gen_k(kv, kscalar, ks, kcls);
+                    k_float = !kscalar && rng.chance(0.25);
                     if (kscalar)
                         er->set_k_coef(ks);
+                    else if (k_float)
+                    {
+                        er->set_k_coef(karr_f(kv));
+                        ks = kv[0];
+                        R.count("c14.k_given_as_float_array");
+                    }
                     else
                         er->set_k_coef(karr(kv));
                     R.count("c14.k_changed_on_same_eroder");
